@@ -502,6 +502,18 @@ def check_damage(ctx):
     return out
 
 
+def _wait_for_workers(timeout=20.0):
+    import threading
+    import time as _t
+    from sedpack.io.itertools.lazy_pool import Collector
+    end = _t.time() + timeout
+    while _t.time() < end:
+        if not any(isinstance(t, Collector) and t.is_alive()
+                   for t in threading.enumerate()):
+            return
+        _t.sleep(0.005)
+
+
 def check_lazy(ctx):
     """C14: taking k examples from a repeating stream opens only a bounded
     number of shards beyond those needed."""
@@ -531,6 +543,13 @@ def check_lazy(ctx):
                             got = C.iterate(d, iface, "train", limit=take,
                                             repeat=True, shuffle=shuffle,
                                             file_parallelism=fp)
+                            # abandoning the pass only QUEUES the stop
+                            # sentinels: the pool's worker threads still work
+                            # off what they were handed.  Wait for them, so
+                            # that their opens are counted for this pass and
+                            # not for the next one (the first version of this
+                            # check did not wait: a false alarm under load)
+                            _wait_for_workers()
                             needed = (take + 1) // 2
                             if iface == "numpy":
                                 bound = needed + (shuffle + 1 + 1) // 2 + 1
